@@ -66,6 +66,14 @@ def gen_case(g, stream):
             s["X"][t] = [v * 64 + 7 for v in s["X"][t]] if dtype.startswith("float") else s["X"][t]
     c["seqs"] = seqs
     c["probe"] = [g.dyvec(d) for _ in range(3)]
+    # the probe sequence may be integer- or single-precision-typed (counts, one-hot codes, float32 states): the prediction
+    # is Wout^T x + bias of its VALUES
+    c["probe_dtype"] = g.choice(["float64", "float64", "int64", "int8", "float32"])
+    if c["probe_dtype"].startswith("int"):
+        c["probe"] = [[float(g.randint(-5, 5)) for _ in range(d)] for _ in range(3)]
+    # a bias initialiser handed to the constructor: overwritten by the fit when the readout has a bias, and WITHOUT a
+    # bias the offset stays null whatever was handed over
+    c["bias_init"] = g.choice([None, None, "array", "callable"])
     # how the data reaches the solver: one fit() call; partial_fit per sequence then fit(); the same with the
     # regularisation set to its final value only before fit(); or a second fit of a node fitted before on other
     # data with another lambda (accumulators and lambda must be those of the last fit)
@@ -112,8 +120,14 @@ def run_impl(c):
     Ys = [np.array(s["Y"], dtype=float).astype(dt if dt.kind == "f" else np.int64 if dt.kind in "iu" else dt)
           for s in c["seqs"]]
     mode = c.get("mode", "fit")
+    kw_b = {}
+    if c.get("bias_init") == "array":
+        kw_b["bias"] = np.full((c["o"],), 0.75)
+    elif c.get("bias_init") == "callable":
+        from reservoirpy.mat_gen import ones
+        kw_b["bias"] = ones
     node = Ridge(ridge=c["ridge0"] if mode == "partial_ridge" else c["prior"]["ridge"] if mode in ("refit", "refit_failed") else c["ridge"],
-                 input_bias=c["bias"])
+                 input_bias=c["bias"], **kw_b)
     if mode == "refit":
         node.fit(np.array(c["prior"]["X"], dtype=float), np.array(c["prior"]["Y"], dtype=float))
         node.ridge = c["ridge"]
@@ -157,8 +171,10 @@ def run_impl(c):
         raise AssertionError(f"node.ridge is {node.ridge!r}, expected {c['ridge']!r}")
     Wout = np.asarray(node.Wout, dtype=float)
     b = np.asarray(node.bias, dtype=float).reshape(1, -1)
-    probe = np.array(c["probe"], dtype=float)
+    probe = np.array(c["probe"], dtype=float).astype(np.dtype(c.get("probe_dtype", "float64")))
     pred = node.run(probe) if len(probe) else np.zeros((0, c["o"]))
+    if not c["bias"] and np.any(b != 0):
+        raise AssertionError(f"a readout built with input_bias=False holds the offset {b.tolist()} after the fit")
     raw = np.vstack([b, Wout]) if c["bias"] else Wout
     return {"Wout": Wout, "bias": b, "raw": raw, "pred": np.asarray(pred, dtype=float)}
 
